@@ -472,14 +472,39 @@ def run_shard(shard, tier):
             _run_unpack(acc, op, ar, pool, extra)
         else:
             _run_arity(acc)
+            _check_documented_aggregators(acc)
     return acc.result()
+
+
+def _check_documented_aggregators(acc):
+    """The reference table's aggregators are transcribed from the hy.pyops docstrings; keep the two bound together:
+    a docstring that names another aggregator (or stops naming one) than the table is reported."""
+    import re
+    import hy
+    import hy.pyops
+    from mc.ref import cd_ops
+    for op, row in cd_ops.OPS.items():
+        if not row[4]:
+            continue
+        fn = getattr(hy.pyops, hy.mangle(op), None)
+        doc = getattr(fn, "__doc__", None) or ""
+        m = re.search(r"Aggregator for augmented assignment: :hy:func:`(\S+) <", doc)
+        documented = m.group(1) if m else op
+        acc.evaluations += 1
+        if row[5] is not None and documented != row[5]:
+            acc.disagree("docstring-aggregator-differs-from-reference-table", {"mode": "doc", "op": op},
+                         f"hy.pyops.{op} documents aggregator {documented!r}; reference table (transcribed from the docs) has {row[5]!r}",
+                         sig="docagg:" + op, op=op)
 
 
 def recheck(case, tier):
     acc = Acc()
     with warnings.catch_warnings():
         warnings.simplefilter("ignore")
-        if case["mode"] in ("val", "aug"):
+        if case["mode"] == "doc":
+            _check_documented_aggregators(acc)
+            acc.disagreements = [d for d in acc.disagreements if d["case"]["op"] == case["op"]]
+        elif case["mode"] in ("val", "aug"):
             _run_val_or_aug(acc, case["mode"], case["op"], case["arity"], case["pool"], -1, only=case["specs"])
         elif case["mode"] == "unpack":
             _run_unpack(acc, case["op"], len(case["specs"]), case["pool"], len(case["specs"]), only=case["specs"], only_form=case["form"])
